@@ -17,7 +17,7 @@ def Pid (na nt : List Str) : Params :=
     base₁ := initSt na nt, base₂ := initSt na nt, hb := False, sp := false, na := na, nt := nt }
 
 theorem Pid_ok (na nt : List Str) : (Pid na nt).Ok :=
-  ⟨fun _ _ h => h, fun _ _ h => h, fun _ _ h => h, fun h => Bool.noConfusion h, fun _ _ => rfl⟩
+  ⟨fun _ _ h => h, fun _ _ h => h, fun _ _ h => h, fun h => Bool.noConfusion h, fun _ _ => rfl, fun h => Bool.noConfusion h⟩
 
 def Xid : SParams := ⟨[], [], true, []⟩
 
@@ -102,6 +102,7 @@ theorem sim_self_of {na nt : List Str} {s : St}
     · intro j h; exact absurd trivial h
     · intro i h; exact absurd rfl (h i trivial)
     · intro j h; exact absurd rfl (h j trivial)
+    · intro h; exact Bool.noConfusion h
   · constructor
     · show s.stack = s.stack.map id ++ []
       simp
@@ -168,6 +169,7 @@ theorem asim_self {na nt : List Str} {s : St} (DN DG T : Nat → Prop) (bx : Nat
   · intro j _; rfl
   · intro i _; rfl
   · intro j _; rfl
+  · intro h; exact Bool.noConfusion h
 
 /-- the facts about a reachable state -/
 structure Good (na nt : List Str) (s : St) : Prop where
@@ -224,10 +226,10 @@ theorem good_steps {na nt : List Str} {s t : St} (hg : Good na nt s) (evs : List
     (hr : (steps evs).run s = .ok ((), t)) :
     Good na nt t ∧ Eff { Pid na nt with base₁ := s, base₂ := s } s t := by
   have ok : ({ Pid na nt with base₁ := s, base₂ := s } : Params).Ok :=
-    ⟨fun _ _ h => h, fun _ _ h => h, fun _ _ h => h, fun h => Bool.noConfusion h, fun _ _ => rfl⟩
+    ⟨fun _ _ h => h, fun _ _ h => h, fun _ _ h => h, fun h => Bool.noConfusion h, fun _ _ => rfl, fun h => Bool.noConfusion h⟩
   have hs := sim_self_of hg.hna hg.hnt hg.pos hg.wf hg.dex hg.rk hg.ra hg.r0 hg.ss
   have hcl : CL { Pid na nt with base₁ := s, base₂ := s } s := hg.cl
-  obtain ⟨ht, hf⟩ := steps_clean evs hid _ Xid s s ok hs rfl (.inl rfl) hcl hg.sb hg.rv () t () t hr hr
+  obtain ⟨ht, hf⟩ := steps_clean evs hid _ Xid s s ok hs rfl (.inl rfl) hcl hg.sb hg.rv (fun h => Bool.noConfusion h) () t () t hr hr
   refine ⟨⟨ht.1.na₁, ht.1.nt₁, ?_, ht.1.wf, ht.1.dex, ht.2.rk, hf.sb hg.sb, hf.rv hg.rv, ?_, ?_, ht.2.ss, hf.cl hcl⟩, hf⟩
   · exact Nat.lt_of_lt_of_le hg.pos hf.hk.2.2
   · intro j g hj hgj x hx
